@@ -7,6 +7,8 @@ ENGINES = [
     dict(name="tlc-arena", path="spec/ArenaCore.tla spec/Arena.tla spec/ArenaMonitor.tla spec/ArenaTrace.tla",
          serves_properties=["C01", "C02", "C03", "C04", "C06", "C07", "C08", "C09", "C10", "C11", "C12", "C18"],
          kind_free_text="TLA+ spec of the arena; TLC exhaustive small-scope checking; trace validation (Monitor = property level, Trace = implementation level)"),
+    dict(name="apalache-fastpath", path="spec/FastPathInd.tla spec/FastPathEquiv.tla lib/vcheck/apalache.py", serves_properties=["C01", "C04"],
+         kind_free_text="Apalache (symbolic, unbounded integers) inductive-invariant check of the bump-pointer arithmetic of one chunk"),
     dict(name="harness", path="harness/", serves_properties=["C01", "C02", "C03", "C04", "C06", "C07", "C08", "C09", "C10", "C11", "C12", "C18"],
          kind_free_text="Rust drivers over the real crate with a recording/fault-injecting #[global_allocator]; emit ndjson traces"),
 ]
@@ -17,10 +19,10 @@ def _arena(text, ref):
     return dict(category="model_checking", text=text, design_ref=ref, note=_ARENA_NOTE,
                 technique="TLA+ spec + TLC model checking + TLC trace validation of recorded executions")
 CHECKS = {
-    "C01": _arena("Arena.tla checked exhaustively by TLC at small scope (InBounds, Disjoint, LiveAboveFinger, per-step obligations); every event of enumerated/random histories on the real crate (all MIN_ALIGN, dbg+rel) validated by ArenaMonitor (inside held memory below the footer, disjoint from all live blocks) and explained step by step by ArenaTrace.", "6/C01"),
+    "C01": _arena("Arena.tla checked exhaustively by TLC at small scope (InBounds, Disjoint, LiveAboveFinger, per-step obligations); every event of enumerated/random histories on the real crate (all MIN_ALIGN, dbg+rel) validated by ArenaMonitor (inside held memory below the footer, disjoint from all live blocks) and explained step by step by ArenaTrace. Unbounded integers: FastPathInd.tla's inductive invariant (block inside the chunk, above the new finger, aligned; finger MIN_ALIGN-aligned) discharged by Apalache action by action (quick: base case, Reset, DeallocLast; thorough: also ShrinkLast and Alloc/GrowLast per alignment 1..4096), its formula tied to ArenaCore!FastAddr by FastPathEquiv.tla (TLC).", "6/C01"),
     "C02": _arena("Shadow copy of every live block re-verified after every operation and asserted per event by ArenaMonitor (LiveBlocksIntact, ReadsBackWhatWasSupplied, InitialiserCalledOncePerElementInOrder, GrowShrinkKeepPrefix); copy ranges of shrink/grow checked for overlap in Arena.tla.", "6/C02"),
     "C03": _arena("Ledger rebuilt solely from calls reaching the #[global_allocator]; ArenaMonitor checks free-matches-held-layout, frees only in reset/drop, nothing held after drop, no acquisition outside allocation, failure keeps held memory; Arena.tla invariant HeapIsChunks.", "6/C03"),
-    "C04": _arena("Every returned address checked modulo requested and minimum alignment (addresses preserved modulo 4096 by the recorder, minimal-alignment chunk placement); offset enumerator over finger residues x sizes x aligns 1..4096 x MIN_ALIGN; invalid MIN_ALIGN constructors must panic; Arena.tla FingerInv incl. the sentinel.", "6/C04"),
+    "C04": _arena("Every returned address checked modulo requested and minimum alignment (addresses preserved modulo 4096 by the recorder, minimal-alignment chunk placement); offset enumerator over finger residues x sizes x aligns 1..4096 x MIN_ALIGN; invalid MIN_ALIGN constructors must panic; Arena.tla FingerInv incl. the sentinel; FastPathInd.tla (Apalache, unbounded integers) as for C01.", "6/C04"),
     "C06": _arena("ArenaMonitor formulas on every reset event (nothing allocated, at most one block, full capacity, limit kept, no-op on empty) plus capacity probes that must not reach the global allocator; Arena.tla ResetOp obligations.", "6/C06"),
     "C07": _arena("On every granted chunk while a limit is set the usable bytes held (from the ledger, not the crate's counter) must not exceed the limit; requests fitting the current chunk must succeed whatever the limit; Arena.tla C07 obligations with SetLimit at every point.", "6/C07"),
     "C08": _arena("allocated_bytes_including_metadata = sum of held block sizes and allocated_bytes = that minus n x observed footer size, on every event of every trace; unchanged unless the ledger changed; Arena.tla Accounting invariant.", "6/C08"),
